@@ -9,13 +9,14 @@ import (
 
 // world: the generator's own picture of the tree below the root, used to pick mostly-applicable operations.
 type world struct {
-	dirs    map[string]bool
-	files   map[string]bool
-	links   map[string]string
-	slots   map[int]bool
-	watched []string // Add arguments used so far (script form, may contain $R)
-	rng     *rand.Rand
-	names   []string
+	dirs       map[string]bool
+	files      map[string]bool
+	links      map[string]string
+	slots      map[int]bool
+	watched    []string // Add arguments used so far (script form, may contain $R)
+	rng        *rand.Rand
+	names      []string
+	moveSerial int
 }
 
 func newWorld(rng *rand.Rand) *world {
@@ -545,8 +546,13 @@ func genRename(w *world, sc *scriptT, nsteps int) {
 			id := ids[w.rng.Intn(len(ids))]
 			n := fmt.Sprintf("%s/h%d", dirs[w.rng.Intn(2)], len(sc.steps))
 			add("fs", "link", cur[id], n)
-		case r < 90:
+		case r < 86:
 			add(w.procStep()...)
+		case r < 92:
+			add("proc", "A")
+			for _, st := range interleavedMoves(w) {
+				add(st...)
+			}
 		default:
 			// a burst of move-outs (unmatched cookies) followed by one matched move
 			k := 3 + w.rng.Intn(12)
@@ -557,6 +563,63 @@ func genRename(w *world, sc *scriptT, nsteps int) {
 			}
 		}
 	}
+}
+
+// interleavedMoves: proc steps handing the reader the halves of 2-8 concurrent moves in a random interleaving (each
+// MOVED_FROM before its MOVED_TO; one move in five leaves watched territory and has no second half; now and then a
+// plain create in between), in one read or split into two reads at a random point.  Injected on a live watch.
+func interleavedMoves(w *world) [][]string {
+	wd := fmt.Sprintf("L%d", 1000) // resolved against the live table: any live non-sentinel wd
+	p := func(n string) int { return 16 - len(n)%16 }
+	k := 2 + w.rng.Intn(7)
+	type half struct {
+		move int
+		to   bool
+	}
+	var order []half
+	started := 0
+	var open []int
+	for started < k || len(open) > 0 {
+		if started < k && (len(open) == 0 || w.rng.Intn(2) == 0) {
+			order = append(order, half{started, false})
+			open = append(open, started)
+			started++
+		} else {
+			x := w.rng.Intn(len(open))
+			if w.rng.Intn(3) == 0 {
+				x = 0 // the oldest pending move finishes: the slots after it still hold waiting cookies
+			}
+			m := open[x]
+			open = append(open[:x], open[x+1:]...)
+			if w.rng.Intn(5) != 0 {
+				order = append(order, half{m, true})
+			}
+		}
+	}
+	w.moveSerial++
+	base := uint32(80000 + 100*w.moveSerial)
+	var recs []string
+	for _, h := range order {
+		if h.to {
+			n := fmt.Sprintf("new%d_%d", w.moveSerial, h.move)
+			recs = append(recs, injectSpec(wd, 0x80, base+uint32(h.move), n, p(n)))
+		} else {
+			n := fmt.Sprintf("old%d_%d", w.moveSerial, h.move)
+			recs = append(recs, injectSpec(wd, 0x40, base+uint32(h.move), n, p(n)))
+		}
+		if w.rng.Intn(6) == 0 {
+			recs = append(recs, injectSpec(wd, 0x100, 0, "plain", p("plain")))
+		}
+	}
+	cut := len(recs)
+	if w.rng.Intn(2) == 0 {
+		cut = 1 + w.rng.Intn(len(recs))
+	}
+	out := [][]string{append([]string{"proc", strings.Repeat("I", cut)}, recs[:cut]...)}
+	if cut < len(recs) {
+		out = append(out, append([]string{"proc", strings.Repeat("I", len(recs)-cut)}, recs[cut:]...))
+	}
+	return out
 }
 
 // alias: the same file under several names (symlinks, hard links, spellings), retargeting, re-Add, Remove
@@ -852,7 +915,7 @@ func genScen(w *world, sc *scriptT, nsteps int) {
 		k++
 		d := fmt.Sprintf("s%d", k)
 		add("fs", "mkdir", d)
-		switch w.rng.Intn(13) {
+		switch w.rng.Intn(14) {
 		case 0: // a listed path comes to name a file that is already watched under another name (old inode kept alive or not)
 			x, y := d+"/x", d+"/y"
 			add("fs", "create", x)
@@ -904,10 +967,14 @@ func genScen(w *world, sc *scriptT, nsteps int) {
 			add("add", hx(w.spell2(d+"/w")), "31", "0")
 			add("add", hx(w.spell2(child)), "31", "0")
 			w.maybeProc(sc)
-			add("fs", "rename", child, d+"/u/g")
+			dest := d + "/u/g" // out of the watched directory, or to another name inside it
+			if w.rng.Intn(2) == 0 {
+				dest = d + "/w/c2"
+			}
+			add("fs", "rename", child, dest)
 			w.maybeProc(sc)
-			add("fs", "chmod", d+"/u/g")
-			add("fs", "chmod", d+"/u/g")
+			add("fs", "chmod", dest)
+			add("fs", "chmod", dest)
 			add("proc", "A")
 			add("list")
 			add("remove", hx("$R/"+child))
@@ -963,20 +1030,11 @@ func genScen(w *world, sc *scriptT, nsteps int) {
 			add("proc", parts, injectSpec("-1", 0x4000, 0, "", 0))
 			add("fs", "create", d+"/after")
 			add("proc", "A")
-		case 6: // the halves of two moves interleaved in the queue
+		case 6: // the halves of several concurrent moves interleaved in the queue (each FROM before its TO; some moves leave)
 			add("add", hx("$R/"+d), "31", "0")
-			c1, c2 := uint32(80000+w.rng.Intn(1000)), uint32(90000+w.rng.Intn(1000))
-			wd := fmt.Sprintf("L%d", 1000) // resolved against the live table: any live non-sentinel wd
-			p := func(n string) int { return 16 - len(n)%16 }
-			recs := []string{injectSpec(wd, 0x40, c1, "a", p("a")), injectSpec(wd, 0x40, c2, "b", p("b")),
-				injectSpec(wd, 0x80, c1, "a2", p("a2")), injectSpec(wd, 0x80, c2, "b2", p("b2"))}
-			if w.rng.Intn(2) == 0 {
-				recs[2], recs[3] = recs[3], recs[2]
+			for _, st := range interleavedMoves(w) {
+				add(st...)
 			}
-			if w.rng.Intn(3) == 0 { // a plain create with a stale cookie value of zero in between
-				recs = append(recs[:2], append([]string{injectSpec(wd, 0x100, 0, "plain", p("plain"))}, recs[2:]...)...)
-			}
-			add(append([]string{"proc", strings.Repeat("I", len(recs))}, recs...)...)
 		case 7: // composed spellings of one directory, entries created below it
 			add("fs", "mkdir", d+"/dir")
 			add("fs", "mkdir", d+"/dir/sub")
@@ -1043,6 +1101,26 @@ func genScen(w *world, sc *scriptT, nsteps int) {
 			add("fs", "write", d+"/par2/f")
 			add("proc", "A")
 			add("remove", hx("$R/"+f))
+		case 12: // records that produce no event (a delete the parent reports, IN_IGNORED) followed by real events in ONE read
+			f, g := d+"/f", d+"/g"
+			add("fs", "create", f)
+			add("add", hx(w.spell2(d)), "31", "0")
+			add("add", hx(w.spell2(f)), "31", "0")
+			if w.rng.Intn(2) == 0 {
+				add("fs", "create", d+"/x")
+				add("add", hx("$R/"+d+"/x"), "31", "0")
+				add("remove", hx("$R/"+d+"/x")) // its IN_IGNORED is queued
+			}
+			add("fs", "chmod", f)
+			add("fs", "unlink", f)
+			add("fs", "create", g)
+			add("fs", "write", g)
+			if w.rng.Intn(2) == 0 {
+				add("fs", "chmod", g)
+			}
+			add("fs", "unlink", g)
+			add("proc", "A")
+			add("list")
 		case 11: // names directly in the working directory: bare relative spellings, watched together with "." itself
 			f := fmt.Sprintf("rootf%d", k)
 			if w.rng.Intn(4) == 0 {
